@@ -82,3 +82,55 @@ P["C07"] = {
     "rule": "Ciphertexts reached by random BFV/BGV operation programs (same generator as C02) that are NOT stopped when the budget is exhausted, so zero-budget and low-budget ciphertexts are included; fresh public-key / secret-key encryptions; negations; k-fold sums (k = 2..9) of same-level same-factor ciphertexts. The library's invariant_noise_budget is compared with the Lean model of dot product + compose + infinity norm and with the definition evaluated on the exact big-integer phase.",
     "assumptions": ["negation / add_many laws are checked with the library's own budgets, which the `budget` lines of the same run tie to the exact definition"],
 }
+
+P["C13"] = {
+    "lean_modules": ["Heathcliff.Props.C13"],
+    "level": "proof",
+    "runs": lambda tier, seed: ([{"seed": seed, "args": ["all"]}] if tier == "quick" else
+                                [{"seed": seed, "args": ["gen"]}, {"seed": seed, "args": ["ladder"]}, {"seed": seed, "args": ["chain"]}]
+                                + [{"seed": seed * 1000 + i, "args": ["random"]} for i in range(4)]),
+    "search": lambda tier, seed: [{"seed": seed * 7919 + i, "args": ["random"]} for i in range(2)],
+    "rule": "Exhaustive small universe built through the real builder: schemes {None,BFV,CKKS,BGV} x N in {0,1,2,3,4,8,16} x every list of 0..2 moduli "
+            "(3 quick / 4 thorough from a reduced pool) over the pool {0, 2, non-NTT primes 3/13, NTT-friendly primes 17/41/73/97/113, composites = 1 mod 8 or 16 "
+            "(9, 25, 65), a 61-bit value} incl. duplicates and every order x 13 plain moduli (0, 1, powers of two, batching primes, values sharing a factor with a "
+            "modulus, values >= a coefficient prime / >= the product, 61 bits); chain universe: 22 moduli lists (valid, invalid at some prefix, descending or not) x "
+            "plain moduli that invalidate a lower level x both flags x security None/128; security universe: total bit counts limit-1, limit, limit+1 of every "
+            "table entry for N = 512..4096 (thorough ..65536) x 4 requested levels, bfv_default sets; random large sets (N up to 2^11 / 2^13, 1..6 / 1..10 primes from "
+            "CoeffModulus::create, mutated: composite = 1 mod 2N, duplicate, non-NTT prime, reordered). Every level of every chain is compared (qualifiers, all constants, "
+            "links, chain_index, id = hash(pre-image), id agreement of two independently built contexts). Generators: get_primes for all factors <= 18 (40) x sizes 0..9 x "
+            "counts 0..3 plus large sizes, CoeffModulus::create, PlainModulus::batching, max_bit_count / bfv_default tables, is_prime for all values < 3000 (20000), "
+            "Carmichael numbers, strong pseudoprimes, random odd values.",
+    "exhaustive": {"quick": True, "thorough": True},
+    "explanation": "exhaustive=true refers to the stated small-parameter universe (moduli lists up to length 2 over the full pool, length 3/4 over the reduced pool, "
+                   "every plain modulus of the pool, every listed N, all four schemes; flags x security for the chain lists); the large parameter sets are sampled.",
+    "assumptions": ["Modulus::is_prime (Miller-Rabin, 40 random rounds) is a function of the value: the driver uses deterministic Miller-Rabin with 12 bases (exact below 3.3e24 by a published result, trusted); theorem is_prime_no_false_negative covers the other direction for every witness sequence",
+                    "NTT tables exist iff the modulus is prime and = 1 mod 2N: the random search for a primitive root (100 attempts, success probability 1/2 each for a prime) is assumed to succeed",
+                    "SHA-256 (crate sha2) is collision free on the pre-images of one chain; ids are compared through their pre-images (checked against the crate's own hash function in the harness)",
+                    "ContextData::upper_half_increment has no public accessor and is never read by the crate beyond its first word (coeff_modulus_mod_plain_modulus): modelled, not compared"],
+}
+
+P["C16"] = {
+    "lean_modules": ["Heathcliff.Props.C16"],
+    "level": "proof",
+    "runs": lambda tier, seed: ([{"seed": seed}] if tier == "quick" else [{"seed": seed * 1000 + i} for i in range(3)]),
+    "search": lambda tier, seed: [{"seed": seed * 7919 + i} for i in range(2)],
+    "rule": ("BlakeRNG: 64-byte seeds (all-zero, all-ones, one-bit, random) x operation sequences: fill_bytes chunkings that straddle the 4096-byte refill "
+             "with unaligned sizes (4096-a, then 0..64-byte chunks), buffer multiples and their neighbours with empty reads at the boundary, next_u32/next_u64 "
+             "right at the buffer end (alignment skip + refill), interleaved unaligned fill_bytes/next_u32/next_u64, >1024 words in a row, walks over several "
+             "refills; each sequence ends with a 16-byte probe that observes the final state. The model gets the BLAKE3 blocks as data (recomputed in the harness "
+             "with the blake3 crate from seed ++ counter_le64, independently of BlakeRNG). Samplers ternary / centered_binomial / uniform for 1..6 moduli "
+             "(22..2^61-1, powers of two, moduli with frequent rejections), degrees 1..1100, generator started at aligned and unaligned positions and across the refill; "
+             "hamming_weight on all 256 bytes. Histories of key generations / (a)symmetric encryptions / public keys / relinearization keys on real BFV/CKKS/BGV "
+             "contexts with 1..6 coefficient primes under the entropy override (hook), every operation compared with the model of where generators are obtained "
+             "(stored seed, mask, noise polynomials, number of fresh generators, state of a caller-supplied generator afterwards). Verdict lines (!OK/!FAIL, harness "
+             "oracle): chunked = single = bytewise = blake3 recomputation; per history pairwise distinct factory seeds / stored seeds / masks / secrets and form of every "
+             "recorded sample, also with real OS entropy; c1 of seeded objects = expansion of the stored seed."),
+    "assumptions": [
+        "BLAKE3 (crate blake3) is a parameter of the model: the block function xof(seed, counter); the driver runs the model on the real blocks. Theorems about samples assume its outputs are bytes (ByteXof).",
+        "PARTIAL (outside the model, checked empirically by the harness, labelled as tests `empirical-test`): the stream does not repeat within the explored length (16-byte windows over 4 MiB quick / 64 MiB thorough), streams of seeds differing in one bit differ, OS entropy (ChaCha20Rng::from_entropy) never repeats; theorem stored_seeds_fresh takes the corresponding injectivity as a hypothesis, draws_fresh takes injectivity of the entropy source. The distribution of the error sample is a theorem (cbd_distribution: exactly 64*C(42,v+21) of the 2^48 byte draws give v; variance 21/2) GIVEN uniform stream bytes; that the bytes are uniform, and the distributions of ternary / uniform samples (which depend on rand's rejection sampling over a uniform stream), are checked empirically only (chi-square tests).",
+        "rand 0.8.5 `Uniform`: a parameter with the contract `sample in [lo, hi]`; the instance that follows UniformInt::sample (widening multiply, rejection zone) is proved to meet the contract and is what the driver runs (bit-exact agreement with the crate is established by correspondence only). Its rejection loop is modelled with fuel 4096.",
+        "little-endian host (next_u32/next_u64 read the buffer through a raw pointer; a misaligned buffer address would be UB: the struct is #[repr(align(8))] and the observed field layout puts the buffer at a multiple of 8); `x & !m` is modelled as floor(x/(m+1))*(m+1) (theorem alignment_as_coded)",
+        "error samples: theorem error_rns_consistent is for moduli above the bound 21; for q <= 21 `q - |e|` underflows (refusal with overflow checks, unreduced word without): recorded in known_findings.json (status known) and reported as KNOWN-FINDING, the spec oracle claims the property for every modulus >= 2",
+        "the history checks use the verif hooks rng_hooks (entropy override, sample tape): add-only, feature-gated code in /repo (hook.patch)",
+    ],
+}
